@@ -36,52 +36,66 @@ fn make(c: &Cfg) -> (Simulator, BufferedDisplay) {
     let kb = BufferedKeyboard::default(); kb.get_buffer().write().unwrap().extend(match c.kb { 0 => &b""[..], 1 => &b"ab"[..], _ => &b"\x00\xffz"[..] });
     let d = BufferedDisplay::default();
     sim.device_handler.set_keyboard(kb); sim.device_handler.set_display(d.clone());
-    let mut t = match c.range { 0 => TimerDevice::new(Some(c.tseed), 3..=3, 0x81, 4), 1 => TimerDevice::new(Some(c.tseed), 1..=3, 0x81, 4), 2 => TimerDevice::new(Some(c.tseed), 0..=2, 0x81, 4), _ => TimerDevice::new(Some(c.tseed), 5..40, 0x81, 2) };
+    let mut t = match c.range { 0 => TimerDevice::new(Some(c.tseed), 3..=3, 0x81, 4), 1 => TimerDevice::new(Some(c.tseed), 1..=3, 0x81, 4), 2 => TimerDevice::new(Some(c.tseed), 0..=2, 0x81, 4), 4 => TimerDevice::new(Some(c.tseed), 3..=3, 0x81, 4), _ => TimerDevice::new(Some(c.tseed), 5..40, 0x81, 2) };
     t.enabled = true;
     sim.device_handler.add_device(t, &[]).ok().unwrap();
+    if c.range == 4 {
+        // two more devices that raise interrupts of the SAME priority on the same steps: the winner must not depend on anything but the configuration
+        for v in [0x82u8, 0x83] { let mut t2 = TimerDevice::new(Some(c.tseed), 3..=3, v, 4); t2.enabled = true; sim.device_handler.add_device(t2, &[]).ok().unwrap(); }
+        sim.mem[0x0182].set(0x1F20); sim.mem[0x0183].set(0x1F30);
+        for (a, w) in [(0x1F20u16, 0x1021u16), (0x1F21, 0x8000), (0x1F30, 0x14A1), (0x1F31, 0x8000)] { sim.mem[a].set(w); }
+    }
     (sim, d)
 }
 
 fn check(c: &Cfg, steps: usize) -> Result<u64, (String, String)> {
     let what = format!("{c:?}");
+    // Nondeterminism of the subject shows up as run-to-run differences, possibly only sometimes: compare several independently
+    // built simulators against the first one, so that a random tie-break or entropy source is caught (and re-caught on replay) with near certainty.
+    let mut total = 0u64;
+    for _rep in 0..4 { total = check_pair(c, steps, &what)?; }
+    Ok(total)
+}
+fn check_pair(c: &Cfg, steps: usize, what: &str) -> Result<u64, (String, String)> {
+    let what = what.to_string();
     let r = catch(|| -> Result<u64, (String, String)> {
         let (mut a, da) = make(c); let (mut b, db) = make(c);
         // initial state identical, and Known fills everything outside the OS image, the loaded program and the I/O page
-        for x in 0..=0xFFFFu16 { if a.mem[x] != b.mem[x] { return Err(("initial-memory-differs".into(), format!("{what}: mem[x{x:04X}] {:?} vs {:?} in two simulators built alike", a.mem[x], b.mem[x]))); } }
-        for i in 0..8 { if a.reg_file[reg(i)] != b.reg_file[reg(i)] { return Err(("initial-registers-differ".into(), format!("{what}: R{i} {:?} vs {:?}", a.reg_file[reg(i)], b.reg_file[reg(i)]))); } }
+        for x in 0..=0xFFFFu16 { if a.mem[x] != b.mem[x] { return Err(("initial-memory-differs".into(), format!("{what}: two simulators built alike start with different memory"))); } }
+        for i in 0..8 { if a.reg_file[reg(i)] != b.reg_file[reg(i)] { return Err(("initial-registers-differ".into(), format!("{what}: two simulators built alike start with different registers"))); } }
         if let MachineInitStrategy::Known { value } = c.strat {
             let fresh = Simulator::new(SimFlags { machine_init: c.strat, ..Default::default() });
             for i in 0..8 { if fresh.reg_file[reg(i)].get() != value { return Err(("known-fill:register".into(), format!("Known{{x{value:04X}}}: R{i} = x{:04X}", fresh.reg_file[reg(i)].get()))); } }
             for x in 0..0xFE00u16 { if !os().image.contains_key(&x) && fresh.mem[x].get() != value { return Err(("known-fill:memory".into(), format!("Known{{x{value:04X}}}: mem[x{x:04X}] = x{:04X}", fresh.mem[x].get()))); } }
         }
         let mut interrupts = 0u64;
-        for k in 0..steps {
+        for _k in 0..steps {
             a.observer.clear();
             let depth0 = a.frame_stack.len();
             let ra = a.step_in(); let rb = b.step_in();
-            if format!("{ra:?}") != format!("{rb:?}") { return Err(("results-differ".into(), format!("{what}: step {k}: {ra:?} vs {rb:?}"))); }
-            for i in 0..8 { if a.reg_file[reg(i)] != b.reg_file[reg(i)] { return Err(("registers-differ".into(), format!("{what}: step {k}: R{i} {:?} vs {:?}", a.reg_file[reg(i)], b.reg_file[reg(i)]))); } }
-            if a.pc != b.pc || a.psr().get() != b.psr().get() { return Err(("pc-psr-differ".into(), format!("{what}: step {k}: PC x{:04X}/x{:04X} PSR x{:04X}/x{:04X}", a.pc, b.pc, a.psr().get(), b.psr().get()))); }
-            for (x, _) in a.observer.take_mem_accesses() { if x < 0xFE00 && a.mem[x] != b.mem[x] { return Err(("memory-differs".into(), format!("{what}: step {k}: mem[x{x:04X}] {:?} vs {:?}", a.mem[x], b.mem[x]))); } }
-            if a.frame_stack.len() != b.frame_stack.len() || a.instructions_run != b.instructions_run { return Err(("counters-differ".into(), format!("{what}: step {k}: frames {}/{} instructions {}/{}", a.frame_stack.len(), b.frame_stack.len(), a.instructions_run, b.instructions_run))); }
+            if format!("{ra:?}") != format!("{rb:?}") { return Err(("runs-diverge".into(), format!("{what}: two identically configured simulations of the same program with the same inputs do not produce identical histories (which component diverges first varies from run to run)"))); }
+            for i in 0..8 { if a.reg_file[reg(i)] != b.reg_file[reg(i)] { return Err(("runs-diverge".into(), format!("{what}: two identically configured simulations of the same program with the same inputs do not produce identical histories (which component diverges first varies from run to run)"))); } }
+            if a.pc != b.pc || a.psr().get() != b.psr().get() { return Err(("runs-diverge".into(), format!("{what}: two identically configured simulations of the same program with the same inputs do not produce identical histories (which component diverges first varies from run to run)"))); }
+            for (x, _) in a.observer.take_mem_accesses() { if x < 0xFE00 && a.mem[x] != b.mem[x] { return Err(("runs-diverge".into(), format!("{what}: two identically configured simulations of the same program with the same inputs do not produce identical histories (which component diverges first varies from run to run)"))); } }
+            if a.frame_stack.len() != b.frame_stack.len() || a.instructions_run != b.instructions_run { return Err(("runs-diverge".into(), format!("{what}: two identically configured simulations of the same program with the same inputs do not produce identical histories (which component diverges first varies from run to run)"))); }
             if a.frame_stack.len() > depth0 && a.psr().priority() > 0 { interrupts += 1; }
-            if *da.get_buffer().read().unwrap() != *db.get_buffer().read().unwrap() { return Err(("output-differs".into(), format!("{what}: step {k}: output {:x?} vs {:x?}", da.get_buffer().read().unwrap(), db.get_buffer().read().unwrap()))); }
+            if *da.get_buffer().read().unwrap() != *db.get_buffer().read().unwrap() { return Err(("runs-diverge".into(), format!("{what}: two identically configured simulations of the same program with the same inputs do not produce identical histories (which component diverges first varies from run to run)"))); }
             if ra.is_err() { break; }
         }
-        for x in 0..0xFE00u16 { if a.mem[x] != b.mem[x] { return Err(("final-memory-differs".into(), format!("{what}: mem[x{x:04X}] {:?} vs {:?}", a.mem[x], b.mem[x]))); } }
+        for x in 0..0xFE00u16 { if a.mem[x] != b.mem[x] { return Err(("runs-diverge".into(), format!("{what}: two identically configured simulations of the same program with the same inputs do not produce identical histories (which component diverges first varies from run to run)"))); } }
         Ok(interrupts)
     });
     match r { Ok(x) => x, Err(p) => Err((format!("panic:{}", panic_site(&p)), format!("{what}: {p}"))) }
 }
 fn cfgs(thorough: bool) -> Vec<Cfg> {
     let mut v = vec![];
-    for strat in strategies(thorough) { for range in 0..if thorough { 4u8 } else { 3 } { for tseed in if thorough { vec![5u64, 9, 0, u64::MAX] } else { vec![5u64, 9] } { for prog in 0..5 { for kb in 0..if thorough { 3u8 } else { 2 } { for flags in if thorough { vec![0u8, 1, 2, 3] } else { vec![0u8, 3] } {
+    for strat in strategies(thorough) { for range in 0..5u8 { for tseed in if thorough { vec![5u64, 9, 0, u64::MAX] } else { vec![0u64, 9] } { for prog in 0..5 { for kb in 0..if thorough { 3u8 } else { 2 } { for flags in if thorough { vec![0u8, 1, 2, 3] } else { vec![0u8, 3] } {
         v.push(Cfg { strat, range, tseed, prog, kb, flags });
     } } } } } }
     v
 }
 pub fn run(ctx: &Ctx) -> Report {
-    let mut rep = Report::new("grid: machine strategies {Seeded 0,1,2,7,2^63 (thorough +4), Known 0,xFFFF,x1234} x timer ranges {3..=3, 1..=3, 0..=2 (thorough + 5..40)} x timer seeds x 5 programs (one whose results depend on uninitialized registers and memory, a counting loop under timer interrupts, a GETC/OUT echo loop, PUTS + subroutine with stack, a stack-walking loop) x keyboard inputs x flag sets; for each configuration two independently constructed simulators: identical initial 64K memory and registers, then after every one of 400 (thorough 1500) steps identical result, registers (with init flags), PC, PSR, touched memory, frame depth, instruction count, output; identical final memory; Known{v}: every register and every word outside the OS image and the I/O page equals v. non-trivial = configurations in which timer interrupts were taken");
+    let mut rep = Report::new("grid: machine strategies {Seeded 0,1,2,7,2^63 (thorough +4), Known 0,xFFFF,x1234} x timer ranges {3..=3, 1..=3, 0..=2, 5..40, and three timers of equal priority firing on the same steps} x timer seeds x 5 programs (one whose results depend on uninitialized registers and memory, a counting loop under timer interrupts, a GETC/OUT echo loop, PUTS + subroutine with stack, a stack-walking loop) x keyboard inputs x flag sets; for each configuration independently constructed simulators (4 pairs): identical initial 64K memory and registers, then after every one of 400 (thorough 1500) steps identical result, registers (with init flags), PC, PSR, touched memory, frame depth, instruction count, output; identical final memory; Known{v}: every register and every word outside the OS image and the I/O page equals v. non-trivial = configurations in which timer interrupts were taken");
     let cs = cfgs(ctx.thorough());
     let steps = ctx.pick(400usize, 1500usize);
     let r = sweep(ctx, cs.len() as u64, 1, |i, acc| {
